@@ -226,6 +226,10 @@ func flowStream(prop string, r *hx.Rand, tier string, n int, w *bufio.Writer) ma
 		if err != nil {
 			panic(err)
 		}
+		var c7a *c07aState // deep5-C07: granted audiences that are not the client, a storage that hands out its own slices (c07aud.go)
+		if prop == "C07" {
+			c7a = c07aSetup(r, bed, stats)
+		}
 		cls := flowClientsCross()
 		if prop == "C04" || (prop == "C07" && r.Chance(40)) { // deep3-C04: access-token type per registration (c04x.go)
 			c04xPrepare(r, cls, stats)
@@ -250,6 +254,9 @@ func flowStream(prop string, r *hx.Rand, tier string, n int, w *bufio.Writer) ma
 		ksLine(l, "published", []*hx.Key{bed.SignKey}, []string{"sig1"}, []string{"sig"}) // what an id_token_hint is verified against
 		if sc != nil {
 			sc.describe(l)
+		}
+		if c7a != nil {
+			c7a.describe(l)
 		}
 		emit(l)
 
@@ -455,6 +462,9 @@ func flowStream(prop string, r *hx.Rand, tier string, n int, w *bufio.Writer) ma
 				params = append(params, wkv{k: "refresh_token", v: rts[r.Intn(len(rts))].token})
 			}
 			l := hx.NewLine(prop).I("case", int64(caseNo)).S("op", "exchange").S("code", codeLabel).S("redirect", redirect).S("verifier", verifier)
+			if c7a != nil && ic.client != "" { // deep5-C07: the audience the storage grants to the code's client
+				c7a.grantLine(l, ic.client)
+			}
 			authParams, basic := flowAuthWire(r, sy, l, caller, cls, staleAuth(caller))
 			params = append(params, authParams...)
 			// other values a request may carry next to the intended ones (never a second code that could still be redeemed:
@@ -528,8 +538,10 @@ func flowStream(prop string, r *hx.Rand, tier string, n int, w *bufio.Writer) ma
 			if len(scopes) > 0 {
 				params = append(params, wkv{k: "scope", v: strings.Join(scopes, " ")})
 			}
+			strayClient := ""
 			if len(codes) > 0 && r.Chance(8) { // stray parameters of the OTHER grant
 				oc := codes[r.Intn(len(codes))]
+				strayClient = oc.client
 				params = append(params, wkv{k: "code", v: oc.real, sym: oc.label}, wkv{k: "redirect_uri", v: oc.redirect})
 				if oc.verifier != "" {
 					params = append(params, wkv{k: "code_verifier", v: oc.verifier})
@@ -560,6 +572,9 @@ func flowStream(prop string, r *hx.Rand, tier string, n int, w *bufio.Writer) ma
 				}
 			}
 			l := hx.NewLine(prop).I("case", int64(caseNo)).S("op", "refresh").S("rt", tok).L("scopes", scopes).S("shape", shape)
+			if c7a != nil && strayClient != "" { // deep5-C07: should the request be served as a code exchange: the audience granted to the code's client
+				c7a.grantLine(l, strayClient)
+			}
 			authParams, basic := flowAuthWire(r, sy, l, caller, cls, staleAuth(caller))
 			params = append(params, authParams...)
 			alts := map[string][]wkv{
@@ -589,6 +604,9 @@ func flowStream(prop string, r *hx.Rand, tier string, n int, w *bufio.Writer) ma
 			nrt := flowTokenObs(bed, l, resp, &rts)
 			if c7 != nil { // deep4-C07: where the fault hit, what the body carried, what the storage did
 				c7.observe(bed, l, resp, &rts, func(id string) bool { return byID[id] != nil && byID[id].c.TokenType == op.AccessTokenTypeJWT })
+			}
+			if c7a != nil { // deep5-C07: the audiences of the new tokens
+				c7a.observe(l, resp)
 			}
 			for _, x := range rts { // whatever token the request ended up rotating is gone now
 				if !x.dead && bed.Store.Refresh(x.token) == nil {
@@ -834,7 +852,7 @@ func flowStream(prop string, r *hx.Rand, tier string, n int, w *bufio.Writer) ma
 			c04scScenarios(xc, sc) // round 4b: assertions of one private_key_jwt client for another's code under a custom subject check
 		}
 		if prop == "C07" { // deep4-C07: scripted openings of c07fault.go (fault sweep over every storage call of a refresh, concurrent refreshes)
-			c07fScenarios(&c07fCtx{prop: prop, tier: tier, r: r, bed: bed, sy: sy, cls: cls, byID: byID, stats: stats, f: c7, gate: gate7,
+			x7 := &c07fCtx{prop: prop, tier: tier, r: r, bed: bed, sy: sy, cls: cls, byID: byID, stats: stats, f: c7, gate: gate7,
 				emit: emit, caseNo: &caseNo, rts: &rts, doRefresh: doRefresh,
 				grant: func(scopes string) (*flowClient, *issuedRT) {
 					var elig []*flowClient
@@ -851,7 +869,9 @@ func flowStream(prop string, r *hx.Rand, tier string, n int, w *bufio.Writer) ma
 						}
 					}
 					return fc, nil
-				}})
+				}}
+			c07fScenarios(x7)
+			c07aScenarios(x7, c7a) // deep5-C07: a chain of at least three plain refreshes on one grant (c07aud.go)
 		}
 		nops := 4 + r.Intn(maxOps)
 		for o := 0; o < nops; o++ {
